@@ -286,14 +286,14 @@ pub fn check(c: &Case) -> Outcome {
 pub fn def() -> PropDef {
     PropDef {
         id: "C09",
-        rule: "the client downloads its pieces from an honest set-up peer (piece length from {100,16384,16385,20000,40000}, generated last-piece length; 2- and 3-piece torrents so that an owned piece is also the short last one); then one peer with a valid handshake (in a quarter of the cases announcing its piece by Have only, supplying it to the client and asking for it back although the client never unchoked it) sends a history of up to 30 ops: Request(index,begin,length) from an edge-biased u32^3 (valid ranges, ranges ending exactly at / one beyond the piece end, length 0/16384/16385/2^31/2^32-1, begin near 2^32 so that begin+length wraps, index of a piece the client lacks or beyond the piece count, switching between owned pieces), interested / not-interested, and the manager's real choke rotation after 21 virtual seconds (so the client really chokes and unchokes this peer). Oracle: every Piece frame answers exactly one earlier unanswered request with the same index, offset and length, carries exactly those bytes of the stored piece, <= 16 KiB, inside the piece, for an owned piece, and that request was sent while the client's last word to the peer was Unchoke; no task or manager panic. Non-trivial = at least one answered valid request and one request that must not be answered; distinct by hash of the case.",
+        rule: "the client downloads its pieces from an honest set-up peer (piece length from {100,16384,16385,20000,40000}, generated last-piece length; 2- and 3-piece torrents so that an owned piece is also the short last one); then one peer with a valid handshake (in a quarter of the cases announcing its piece by Have only, supplying it to the client and asking for it back although the client never unchoked it) sends a history of up to 30 ops: Request(index,begin,length) from an edge-biased u32^3 (valid ranges, ranges ending exactly at / one beyond the piece end, length 0/16384/16385/2^31/2^32-1, begin near 2^32 so that begin+length wraps, index of a piece the client lacks or beyond the piece count, switching between owned pieces), interested / not-interested, the manager's real choke rotation after 21 virtual seconds (so the client really chokes and unchokes this peer), and bursts of 8..47 back-to-back full-block requests that are not read until all are sent; in a third of the cases the client's end of the connection has a 4 KiB kernel send buffer, so that its writes are accepted piecemeal. Oracle: every Piece frame answers exactly one earlier unanswered request with the same index, offset and length, carries exactly those bytes of the stored piece, <= 16 KiB, inside the piece, for an owned piece, and that request was sent while the client's last word to the peer was Unchoke; no task or manager panic. Non-trivial = at least one answered valid request and one request that must not be answered; distinct by hash of the case.",
         assumptions: &["requests are sent only after a quiescence barrier, so 'the client's last word' at the time a request is read is unambiguous"],
         subs: vec![Sub {
             name: "requests",
             cases: |t| t.pick(15_000, 200_000),
             run: |ctx| run_proptest(ctx, "requests", strategy(), check),
             replay: |v| replay_case::<Case>(v, check),
-            min_class: &[("valid-request-answered", 0.4), ("invalid-request-not-answered", 0.492), ("request-while-choked", 0.05), ("begin+length-wraps-u32", 0.0848), ("piece-switching", 0.03), ("rotation", 0.2207), ("client-choked-us", 0.03), ("peer-announced-by-have-only", 0.1), ("peer-supplied-a-block", 0.05)],
+            min_class: &[("valid-request-answered", 0.4), ("invalid-request-not-answered", 0.492), ("request-while-choked", 0.05), ("begin+length-wraps-u32", 0.0848), ("piece-switching", 0.03), ("rotation", 0.2207), ("client-choked-us", 0.03), ("peer-announced-by-have-only", 0.1), ("peer-supplied-a-block", 0.05), ("small-kernel-send-buffer", 0.15), ("answers-exceed-socket-buffer", 0.025)],
         }],
     }
 }
